@@ -145,6 +145,17 @@ func (c *Ctx) path(v ssa.Value, env Env, d int) string {
 				if src := decodedFrom(al); src != nil {
 					return "decoded(" + c.path(src, env, d+1) + ")"
 				}
+				// a variable captured by a closure lives in a cell; assigned once, a load of it is that value
+				if sv := singleAssignment(al, x); sv != nil && d < 40 {
+					return c.path(sv, env, d+1)
+				}
+			}
+			if fv, ok := x.X.(*ssa.FreeVar); ok && d < 40 {
+				if _, renamed := env[fv]; !renamed {
+					if sv := capturedValue(fv); sv != nil {
+						return "up:" + c.path(sv, nil, d+1)
+					}
+				}
 			}
 			return c.path(x.X, env, d)
 		case token.NOT:
@@ -369,6 +380,119 @@ func (c *Ctx) valuesOfFuncType(nt *types.Named) []*ssa.Function {
 		}
 	}
 	c.ftMemo[nt] = out
+	return out
+}
+
+// singleAssignment: al is the cell of a local variable (or spilled parameter) that is written exactly once, by a
+// store that comes before the load ld on every path (it dominates ld); the address is used only by loads, that store
+// and closures that capture it without writing it. Returns the stored value, nil otherwise.
+func singleAssignment(al *ssa.Alloc, ld *ssa.UnOp) ssa.Value {
+	st := singleStore(al)
+	if st == nil || ld.Block() == nil || !instrBefore(st, ld) {
+		return nil
+	}
+	return st.Val
+}
+
+// instrBefore: a comes before b on every path to b (same function).
+func instrBefore(a, b ssa.Instruction) bool {
+	if a.Parent() != b.Parent() || a.Block() == nil || b.Block() == nil {
+		return false
+	}
+	if a.Block() == b.Block() {
+		for _, in := range a.Block().Instrs {
+			if in == a {
+				return true
+			}
+			if in == b {
+				return false
+			}
+		}
+	}
+	return a.Block().Dominates(b.Block())
+}
+
+// singleStore: the only store into the cell al, provided the address is otherwise only loaded from (here and in
+// closures that capture it).
+func singleStore(al *ssa.Alloc) *ssa.Store {
+	if _, isPtr := al.Type().Underlying().(*types.Pointer); !isPtr || al.Referrers() == nil {
+		return nil
+	}
+	switch al.Type().Underlying().(*types.Pointer).Elem().Underlying().(type) {
+	case *types.Struct, *types.Array:
+		return nil // aggregates are written through field addresses
+	}
+	var st *ssa.Store
+	var onlyReads func(addr ssa.Value, depth int) bool
+	onlyReads = func(addr ssa.Value, depth int) bool {
+		if addr.Referrers() == nil || depth > 3 {
+			return false
+		}
+		for _, r := range *addr.Referrers() {
+			switch x := r.(type) {
+			case *ssa.UnOp:
+				if x.Op != token.MUL {
+					return false
+				}
+			case *ssa.Store:
+				if x.Addr != addr || depth > 0 || st != nil {
+					return false
+				}
+				st = x
+			case *ssa.MakeClosure:
+				fn, _ := x.Fn.(*ssa.Function)
+				if fn == nil {
+					return false
+				}
+				for i, b := range x.Bindings {
+					if b == addr && (i >= len(fn.FreeVars) || !onlyReads(fn.FreeVars[i], depth+1)) {
+						return false
+					}
+				}
+			case *ssa.DebugRef:
+			default:
+				return false
+			}
+		}
+		return true
+	}
+	if !onlyReads(al, 0) {
+		return nil
+	}
+	return st
+}
+
+// capturedValue: fv is a captured variable whose cell is assigned once in the enclosing function, before the closure
+// is made; returns that value (nil otherwise).
+func capturedValue(fv *ssa.FreeVar) ssa.Value {
+	fn := fv.Parent()
+	par := fn.Parent()
+	if par == nil {
+		return nil
+	}
+	idx := -1
+	for i, x := range fn.FreeVars {
+		if x == fv {
+			idx = i
+		}
+	}
+	var out ssa.Value
+	n := 0
+	forEachInstr(par, func(in ssa.Instruction) {
+		mc, ok := in.(*ssa.MakeClosure)
+		if !ok || mc.Fn != ssa.Value(fn) || idx < 0 || idx >= len(mc.Bindings) {
+			return
+		}
+		n++
+		if al, isAl := mc.Bindings[idx].(*ssa.Alloc); isAl {
+			if st := singleStore(al); st != nil && instrBefore(st, mc) {
+				out = st.Val
+			}
+		}
+	})
+	if n != 1 {
+		return nil
+	}
 	return out
 }
 
